@@ -1309,6 +1309,32 @@ class Replace(Elemwise):
     _keyword_only = ["value", "regex"]
     operation = M.replace
 
+    def _simplify_up(self, parent, dependents):
+        if not isinstance(parent, Projection):
+            return
+        to_replace = self.operand("to_replace")
+        value = self.operand("value")
+        by_column = isinstance(to_replace, Mapping) and (
+            value is not no_default
+            or (
+                len(to_replace) > 0
+                and all(isinstance(v, Mapping) for v in to_replace.values())
+            )
+        )
+        if by_column and self.frame.ndim == 2:
+            # The keys of ``to_replace`` are column names; a Series would
+            # interpret them as values to replace
+            columns = determine_column_projection(self, parent, dependents)
+            if not isinstance(columns, list) and columns == parent.operand("columns"):
+                if columns not in self.frame.columns:
+                    return
+                if columns in to_replace:
+                    return type(self)(
+                        self.frame[columns], to_replace[columns], value, self.regex
+                    )
+                return self.frame[columns]
+        return plain_column_projection(self, parent, dependents)
+
 
 class Isin(Elemwise):
     _projection_passthrough = True
